@@ -47,10 +47,12 @@ Section Generic.
     2:{ destruct (reply_path_terminal f stat) as (a & -> & Ha). constructor; exact Ha. }
     destruct (hook (f_verdict f SPostReadCallBody)) as [|s|c].
     - destruct h as [k|].
-      + destruct (f_handler f) as [hs|c].
+      + destruct (f_handler f) as [hs|c|c].
         * destruct (reply_path_terminal f (if st_ok hs then None else hs)) as (a & -> & Ha).
           constructor; exact Ha.
         * destruct (write_once_terminal f (Some (st_internal c))) as (a & -> & Ha).
+          constructor; exact Ha.
+        * destruct (write_once_terminal f (encode_panic_status f c)) as (a & -> & Ha).
           constructor; exact Ha.
       + destruct (reply_path_terminal f None) as (a & -> & Ha). constructor; exact Ha.
     - destruct (reply_path_terminal f (Some s)) as (a & -> & Ha). constructor; exact Ha.
@@ -187,7 +189,7 @@ Section Generic.
     destruct (st_ok stat); [|apply reply_path_ext; exact H].
     destruct (hook (f_verdict f SPostReadCallBody)).
     - destruct h; [|apply reply_path_ext; exact H].
-      destruct (f_handler f); f_equal; [apply reply_path_ext | apply write_once_ext]; exact H.
+      destruct (f_handler f); f_equal; [apply reply_path_ext | apply write_once_ext | apply write_once_ext]; exact H.
     - apply reply_path_ext; exact H.
     - apply write_once_ext; exact H.
   Qed.
@@ -306,6 +308,7 @@ Proof.
   - destruct h; [|apply reply_path_no_drop; exact Hw].
     destruct (f_handler f); cbn; intros [H|H]; try discriminate; revert H.
     + apply reply_path_no_drop; exact Hw.
+    + apply write_once_no_drop; [reflexivity | exact H1].
     + apply write_once_no_drop; [reflexivity | exact H1].
   - apply reply_path_no_drop; exact Hw.
   - apply write_once_no_drop; [reflexivity | exact H1].
@@ -547,10 +550,11 @@ Proof.
   destruct (st_ok stat) eqn:Es; [|apply Hrp; exact He].
   destruct (hook (f_verdict f SPostReadCallBody)) as [|s|c] eqn:Eh.
   - destruct h as [k|].
-    + destruct (f_handler f) as [hs|c] eqn:Ehd; cbn; intros [H|H]; try discriminate; revert H.
+    + destruct (f_handler f) as [hs|c|c] eqn:Ehd; cbn; intros [H|H]; try discriminate; revert H.
       * apply Hrp. destruct (st_ok hs) eqn:E.
         -- left. reflexivity.
         -- right. destruct hs as [s'|]; [|discriminate]. apply RS_handler. exact Ehd.
+      * apply Hwo. right. constructor.
       * apply Hwo. right. constructor.
     + apply Hrp. left. reflexivity.
   - apply Hrp. right. apply (RS_plugin f SPostReadCallBody); [cbn; auto | apply hook_veto_src; exact Eh].
@@ -758,6 +762,7 @@ Lemma to_handler f k :
   dispatch_now f =
   match f_handler f with
   | HPanic c => Invoke k :: write_once eff_write f (Some (st_internal c))
+  | HEncodePanic c => Invoke k :: write_once eff_write f (encode_panic_status f c)
   | HReturn hs => Invoke k :: reply_path eff_write f (if st_ok hs then None else hs)
   end.
 Proof.
@@ -873,4 +878,17 @@ Proof.
     + rewrite IH. split; [intros H; constructor; assumption | intros H; inversion H; assumption].
     + rewrite E. split; [discriminate | intros H; inversion H; congruence].
     + rewrite E. split; [discriminate | intros H; inversion H; congruence].
+Qed.
+
+(* the handler's result cannot be encoded because its encoder PANICS: one 500 with the panic
+   value, the session's write lock is free again (the reply is written at all) *)
+Lemma rule_encode_panic_lemma f k c :
+  normal_env f -> reaches_post_body f k -> passes (f_verdict f SPostReadCallBody) ->
+  f_handler f = HEncodePanic c ->
+  dispatch_now f = [Invoke k; Reply (f_seq f) (Some (st_internal c))].
+Proof.
+  intros [B Hwok Hwerr] R Hp Hh. rewrite (to_handler f k B R Hp), Hh.
+  unfold encode_panic_status. destruct B as [_ _ _ _ Hpw].
+  destruct (f_verdict f SPreWriteReply) eqn:E; try (exfalso; eapply Hpw; reflexivity);
+    rewrite write_once_normal by (assumption || reflexivity); reflexivity.
 Qed.
